@@ -106,7 +106,7 @@ func (x *Exec) valOf(st *State, v ssa.Value) Val {
 	case *ssa.Global:
 		return Val{GT: v.Type(), A: &Addr{Glob: v, T: v.Type().(*types.Pointer).Elem()}}
 	case *ssa.Function:
-		return Val{S: "Fn", T: "fn." + sanitize(funcKey(v)), GT: v.Type(), Fn: &FnVal{Fn: v}}
+		return Val{S: "Fn", T: x.U().fnConst(funcKey(v)), GT: v.Type(), Fn: &FnVal{Fn: v}}
 	case *ssa.Builtin:
 		return Val{GT: v.Type()}
 	case *ssa.FreeVar:
@@ -861,7 +861,7 @@ func (x *Exec) step(st *State, in ssa.Instruction) {
 		for _, b := range in.Bindings {
 			bs = append(bs, x.valOf(st, b))
 		}
-		set(in, Val{S: "Fn", T: "fn." + sanitize(funcKey(fn)), Fn: &FnVal{Fn: fn, Bindings: bs}})
+		set(in, Val{S: "Fn", T: x.U().fnConst(funcKey(fn)), Fn: &FnVal{Fn: fn, Bindings: bs}})
 	case *ssa.Range:
 		x.rangeInit(st, in, set)
 	case *ssa.Next:
